@@ -626,6 +626,9 @@ network_ssl_read(struct network_ssl_ctx * ssl, uint8_t * buf,
 	return (ssl);
 
 err0:
+	/* The request has not been started. */
+	ssl->read_callback = NULL;
+
 	/* Failure! */
 	return (NULL);
 }
@@ -699,6 +702,9 @@ network_ssl_write(struct network_ssl_ctx * ssl, const uint8_t * buf,
 	return (ssl);
 
 err0:
+	/* The request has not been started. */
+	ssl->write_callback = NULL;
+
 	/* Failure! */
 	return (NULL);
 }
